@@ -337,6 +337,11 @@ func (l *queryLog) readNextEntry(
 	e = &logEntry{}
 	l.decodeLogEntry(ctx, e, line)
 
+	// Set the timestamp before the entry can be discarded, so that the oldest
+	// processed time, which is used as the paging cursor, is never zero for an
+	// entry that has been read.
+	ts = e.Time.UnixNano()
+
 	if l.isIgnored(e.QHost) {
 		return nil, ts, nil
 	}
@@ -359,7 +364,6 @@ func (l *queryLog) readNextEntry(
 		return nil, ts, nil
 	}
 
-	ts = e.Time.UnixNano()
 	if !params.match(e) {
 		return nil, ts, nil
 	}
